@@ -719,12 +719,8 @@ fn check_composition(
 ) -> Result<(), CompilerError> {
     trace!("Composition check between previous {:?} and current {:?}", previous, current);
     match (previous, current) {
-        (SecondaryDefinition::Value, SecondaryDefinition::Value) if !check_for_list => composition_error(previous, current, &token),
-        (SecondaryDefinition::None, SecondaryDefinition::EndGrouping)
-        | (SecondaryDefinition::None, SecondaryDefinition::BinaryLeftToRight)
-        | (SecondaryDefinition::None, SecondaryDefinition::UnarySuffix)
-        | (SecondaryDefinition::Subexpression, SecondaryDefinition::BinaryLeftToRight)
-        | (SecondaryDefinition::Subexpression, SecondaryDefinition::UnarySuffix)
+        // pairs that are only valid as neighbouring items of a space separated list
+        (SecondaryDefinition::Value, SecondaryDefinition::Value)
         | (SecondaryDefinition::Value, SecondaryDefinition::Identifier)
         | (SecondaryDefinition::Value, SecondaryDefinition::StartGrouping)
         | (SecondaryDefinition::Value, SecondaryDefinition::UnaryPrefix)
@@ -732,13 +728,22 @@ fn check_composition(
         | (SecondaryDefinition::Identifier, SecondaryDefinition::Identifier)
         | (SecondaryDefinition::Identifier, SecondaryDefinition::StartGrouping)
         | (SecondaryDefinition::Identifier, SecondaryDefinition::UnaryPrefix)
-        | (SecondaryDefinition::StartGrouping, SecondaryDefinition::None)
-        | (SecondaryDefinition::StartGrouping, SecondaryDefinition::BinaryLeftToRight)
-        | (SecondaryDefinition::StartGrouping, SecondaryDefinition::UnarySuffix)
         | (SecondaryDefinition::EndGrouping, SecondaryDefinition::Value)
         | (SecondaryDefinition::EndGrouping, SecondaryDefinition::Identifier)
         | (SecondaryDefinition::EndGrouping, SecondaryDefinition::StartGrouping)
         | (SecondaryDefinition::EndGrouping, SecondaryDefinition::UnaryPrefix)
+            if !check_for_list =>
+        {
+            composition_error(previous, current, &token)
+        }
+        (SecondaryDefinition::None, SecondaryDefinition::EndGrouping)
+        | (SecondaryDefinition::None, SecondaryDefinition::BinaryLeftToRight)
+        | (SecondaryDefinition::None, SecondaryDefinition::UnarySuffix)
+        | (SecondaryDefinition::Subexpression, SecondaryDefinition::BinaryLeftToRight)
+        | (SecondaryDefinition::Subexpression, SecondaryDefinition::UnarySuffix)
+        | (SecondaryDefinition::StartGrouping, SecondaryDefinition::None)
+        | (SecondaryDefinition::StartGrouping, SecondaryDefinition::BinaryLeftToRight)
+        | (SecondaryDefinition::StartGrouping, SecondaryDefinition::UnarySuffix)
         | (SecondaryDefinition::StartSideEffect, SecondaryDefinition::BinaryLeftToRight)
         | (SecondaryDefinition::StartSideEffect, SecondaryDefinition::UnarySuffix)
         | (SecondaryDefinition::BinaryLeftToRight, SecondaryDefinition::None)
@@ -869,10 +874,16 @@ pub fn parse(lex_tokens: &Vec<LexerToken>) -> Result<ParseResult, CompilerError>
             definition, secondary_definition
         );
 
-        check_composition(previous_second_def, secondary_definition, check_for_list, token)?;
+        // whitespace and annotations are transparent for composition: the check is between the significant
+        // tokens on either side of them (a list is allowed where whitespace set check_for_list)
+        let is_trivia = secondary_definition == SecondaryDefinition::Whitespace || secondary_definition == SecondaryDefinition::Annotation;
 
-        // done with previous, can update now
-        previous_second_def = secondary_definition;
+        if !is_trivia {
+            check_composition(previous_second_def, secondary_definition, check_for_list, token)?;
+
+            // done with previous, can update now
+            previous_second_def = secondary_definition;
+        }
 
         let (definition, parent, left, right) = match secondary_definition {
             SecondaryDefinition::None => implementation_error("Secondary definition of none shouldn't reach check.".to_string())?,
